@@ -25,7 +25,14 @@ TIE = "Tie.C10"
 DRIVER = "c10_driver.py"
 DRIVER_TIMEOUT = 900
 SHARD = 150
-THEOREMS = []          # filled below (kept next to the Coq file for review)
+THEOREMS = [
+    "C10_SB_extends_eq_py", "C10_SB_call_eq_py", "C10_SB_providedBy_eq_py", "C10_hash_eq_py",
+    "C10_implementedBy_eq_py", "C10_implementedBy_metaclass_dict_refuted", "C10_getObjectSpecification_eq_py",
+    "C10_providedBy_eq_py", "C10_providedBy_isinstance_refuted", "C10_OSD_descr_get_eq_py",
+    "C10_CPB_descr_get_eq_py", "C10_richcompare_eq_py", "C10_binop_c_eq_py", "C10_richcompare_x_eq_py",
+    "C10_richcompare_nonstr_refuted", "C10_lookup_eq_py", "C10_lookup1_eq_py", "C10_adapter_hook_eq_py",
+    "C10_lookupAll_subscriptions_eq_py", "C10_call_eq_py",
+]
 
 N_FOREIGN = 16
 
@@ -353,12 +360,66 @@ def gen_program(rng, n_ops=40, stress=None):
     return {"world": world, "ops": ops, "cached_none_default": cached_none}
 
 
+def gen_matrix(rng):
+    """The error-path matrix: every odd object x every unary entry point, every foreign value x
+    every place it can be passed, one op per program (so that no divergence hides another)."""
+    world, ifaces, classes = RG.gen_world(rng, n_ifaces=3, n_classes=2, n_objects=2)
+    cat = odd_catalogue(ifaces)
+    world["xifaces"] = [{"name": "IA", "module": "m", "bases": [], "adapt": None, "other": False},
+                        {"name": "IC", "module": "m", "bases": [], "adapt": ["none"], "other": False}]
+    world["odd"] = cat
+    I = ["S", ifaces[0]]
+    X = ["X", 1]
+    c0 = classes[0]
+
+    def unary(o):
+        return [
+            ["providedBy", o], ["getObjectSpecification", o], ["m", "providedBy", I, o], ["call", I, o, False],
+            ["call", I, o, True], ["adapt", I, o], ["call", X, o, True],
+            ["xreg", "queryAdapter", 0, ["raw", [o]], I, None, True],
+            ["xreg", "adapter_hook", 0, ["raw", [o]], I, None, True],
+            ["xreg", "queryMultiAdapter", 0, ["tuple", [o]], I, None, True],
+            ["xreg", "subscribers", 0, ["tuple", [o]], I, None, False],
+            ["getattr", o, "__providedBy__"], ["getattr", o, "__provides__"], ["getattr", o, "__implemented__"],
+            ["decl", "directlyProvides", o, [I]], ["decl", "alsoProvides", o, [I]], ["directlyProvidedBy", o],
+            ["decl", "noLongerProvides", o, [I]], ["implementedBy", o], ["m", "implementedBy", I, o],
+        ]
+
+    def foreign(f):
+        return unary(f) + [
+            ["cmp", I, f], ["cmp", ["S", c0], f], ["m", "isOrExtends", I, f], ["m", "extends", I, f],
+            ["m", "call", I, f], ["m", "isEqualOrExtendedBy", I, f], ["in", f, ["P", ["o", 0]]], ["hash", I, f],
+            ["sort", [I, f, ["S", ifaces[1]]]],
+            ["xreg", "lookup", 0, ["tuple", [f]], I, None, True], ["xreg", "lookup", 0, ["raw", [f]], I, None, True],
+            ["xreg", "lookup1", 0, ["raw", [f]], I, None, True], ["xreg", "lookup", 0, ["tuple", [I]], f, None, True],
+            ["xreg", "lookup1", 0, ["raw", [I]], f, None, True], ["xreg", "lookup", 0, ["tuple", [I]], I, f, True],
+            ["xreg", "lookup1", 0, ["raw", [I]], I, f, True],
+            ["xreg", "adapter_hook", 0, ["raw", [["o", 0]]], f, None, True],
+            ["xreg", "adapter_hook", 0, ["raw", [["o", 0]]], I, f, True],
+            ["xreg", "lookupAll", 0, ["tuple", [f]], I, None, False],
+            ["xreg", "lookupAll", 0, ["tuple", [I]], f, None, False],
+            ["xreg", "subscriptions", 0, ["tuple", [f]], I, None, False],
+            ["xreg", "subscriptions", 0, ["tuple", [I]], f, None, False],
+            ["xreg", "lookupAll", 0, ["raw", [f]], I, None, False], ["xreg", "names", 0, ["tuple", [f]], I, None, False],
+            ["decl", "classImplements", ["c", c0], [f]], ["decl", "directlyProvides", ["o", 0], [f]],
+            ["decl", "classImplements", f, [I]], ["decl", "implementer", f, [I]], ["decl", "provider", f, [I]],
+        ]
+    cases = []
+    for k in range(len(cat)):
+        for op in unary(["odd", k]) + unary(["oddc", k]):
+            cases.append({"world": world, "ops": [["newreg", "push", []], op, copy.deepcopy(op)], "matrix": True})
+    for k in range(N_FOREIGN):
+        for op in foreign(["F", k]):
+            cases.append({"world": world, "ops": [["newreg", "push", []], op, copy.deepcopy(op)], "matrix": True})
+    return cases
+
+
 def generate(run, tier):
     global _GENERATED
     _GENERATED = True
     rng = run.rng("gen")
-    n = 160 if tier == "quick" else 1500
-    cases = []
+    n = 500 if tier == "quick" else 5000
+    cases = gen_matrix(rng)
     for k in range(n):
         stress = "odd" if k % 5 == 0 else None
         cases.append(gen_program(rng, n_ops=rng.choice([25, 40, 60]), stress=stress))
@@ -372,8 +433,12 @@ _STASH = {"c": [], "py": []}
 
 
 def _pv(p):
-    """[tag, id] probe -> Coq (PAttrErr | PExc | PVal id)"""
-    return {0: "PAttrErr", 1: "PExc"}.get(p[0]) or "(PVal %d)" % p[1]
+    """[tag, x] probe -> Coq term of type CTwins.probe"""
+    if p[0] == 0:
+        return "(Raise EAttr)"
+    if p[0] == 1:
+        return {1: "(Raise EType)", 5: "(Raise ESys)"}.get(p[1], "(Raise (EOther %d))" % p[1])
+    return "(Ok %d)" % p[1]
 
 
 def _pyval(v):
@@ -391,13 +456,20 @@ def _row(row, mode):
     uc = C.cbool(mode == "c")
     k = row["k"]
     if k == "pb":
-        return ("(RProvidedBy %s (mkObjD %s %s %d %s %s %d %s %s %d) %s %s)" % (
-            uc, _pv(row["pb"]), C.cbool(row["pb_sb"]), row["pb_ext"], _pv(row["prov"]), C.cbool(row["prov_sb"]),
-            row["cls"], _pv(row["cprov"]), _pv(row["implby"]), row["empty"], _pv(row["out"]), _pv(row["out_gos"])))
+        ext = row["pb_ext"]
+        ext_t = "ExtPresent" if ext[0] == 0 else "ExtAttrErr" if ext[0] == 1 else "(ExtExc %d)" % ext[1]
+        d = "(mkObjD SupFalse %s %s %s %s %s %s %s %s %s %d)" % (
+            _pv(row["pb"]), C.cbool(row["pb_sb"]), ext_t, _pv(row["prov"]), C.cbool(row["prov_sb"]),
+            _pv(row["cls"]), _pv(row["cprov"]), _pv(row["implby"]), _pv(row["implby"]), row["empty"])
+        return "(RProvidedBy %s %s %s %s)" % (uc, d, _pv(row["out"]), _pv(row["out_gos"]))
     if k == "ib":
         e = row["entry"]
-        return "(RImplementedBy %s (mkClsD %s %d %d %d %s %d) %s)" % (
-            uc, C.cbool(row["is_type"]), row["dict"], e[0], e[1], C.cbool(e[2]), row["builtin"], _pv(row["out"]))
+        entry = "EAbsent" if e[0] == 0 else "ENone" if e[0] == 1 else "(ESpec %d %s)" % (e[1], C.cbool(e[2]))
+        dr = row["dict"]
+        dict_t = "DOk" if dr[0] == 2 else "DAttrErr" if dr[0] == 0 else "(DExc %d)" % dr[1]
+        b = "None" if not row["builtin"] else "(Some %d)" % row["builtin"]
+        return "(RImplementedBy %s (mkClsD false %s %s %s %s) %s)" % (
+            uc, C.cbool(row["is_type"]), dict_t, entry, b, _pv(row["out"]))
     if k == "ext":
         return "(RExtends %s %d %s %s %d)" % (uc, row["implied"], C.cbool(row["hashable"]), C.cbool(row["member"]),
                                               row["out"])
@@ -408,7 +480,7 @@ def _row(row, mode):
         return "(RCpbGet %s %s %s %d %d %s)" % (uc, C.cbool(row["same_cls"]), C.cbool(row["inst"]), row["self"],
                                                 row["implements"], _pv(row["out"]))
     if k == "hash":
-        return "(RHash %s %s %s)" % (uc, C.cbool(row["eq_tuple"]), C.cbool(row["stable"]))
+        return "(RHash %s %s %s %s)" % (uc, C.cZ(row["tuple"]), C.cZ(row["h1"]), C.cZ(row["h2"]))
     if k == "cmp":
         def opnd(d):
             kind, nm, md, ident = d
@@ -494,9 +566,50 @@ def kind(case, obs):
     return "program"
 
 
+# foreign values (harness/drivers/c10_driver.py foreign_table) whose __name__ / __module__ is not a str
+NONSTR_FOREIGN = (5, 6, 13)
+G8_KEY = "G8:eq-with-nonstr-name"
+
+
+def _mentions_nonstr_foreign(x):
+    if isinstance(x, list):
+        if len(x) == 2 and x[0] == "F" and x[1] in NONSTR_FOREIGN:
+            return True
+        return any(_mentions_nonstr_foreign(y) for y in x)
+    return False
+
+
+def _is_g8(op, tc, tp):
+    """known finding G8 (Properties/C10.v C10_richcompare_nonstr_refuted): == / != between an
+    interface and a foreign object whose name is not a str — C answers, Python raises TypeError.
+    Recognised by the cause: the op compares with such an object AND the traces differ exactly
+    where an == / != was evaluated, C giving a bool and Python TypeError."""
+    if not _mentions_nonstr_foreign(op):
+        return False
+    k = op[0]
+    if k == "cmp":
+        try:
+            for rc, rp in zip(tc, tp):
+                for j, (x, y) in enumerate(zip(rc, rp)):
+                    if x != y and not (j in (4, 5) and x in (0, 1) and y == "EXC:TypeError"):
+                        return False
+            return True
+        except TypeError:
+            return False
+    if k == "m" and op[1] == "isEqualOrExtendedBy":
+        # self == other or other.extends(self): C goes on to other.extends (AttributeError)
+        return tp == "EXC:TypeError" and tc in ("EXC:AttributeError", "T", "F")
+    if k == "in":
+        return tp == "EXC:TypeError" and tc in ("T", "F")
+    return False
+
+
 def diff_key(case, tok_c, tok_py, i):
-    """signature of a C/Python divergence: op kind + the two tokens reduced to their shape"""
+    """signature of a C/Python divergence: the cause when it is a known one, else op kind + the two
+    tokens reduced to their shape"""
     op = case["ops"][i] if i < len(case["ops"]) else ["<length>"]
+    if _is_g8(op, tok_c, tok_py):
+        return G8_KEY
 
     def shape(t):
         if isinstance(t, str):
@@ -517,6 +630,18 @@ def _flat(t):
 
 
 def finding_key(case, obs, mode):
+    """Only replays get here with a differential witness (RDiff row): the key of the first divergence
+    that is not a known finding, else of the first divergence."""
+    for (c1, oc), (c2, op) in zip(_STASH["c"], _STASH["py"]):
+        if c1 is case or c2 is case:
+            ds = all_diffs(case, oc["tokens"], op["tokens"])
+            if not ds:
+                return None
+            known = C.load_known(ID)
+            for _d, k in ds:
+                if k not in known:
+                    return k
+            return ds[0][1]
     return None
 
 
@@ -540,56 +665,73 @@ def _run_both(impl, cases):
     return out
 
 
+def all_diffs(case, tc, tp):
+    """[(op index, key)] for every op on which the two traces differ"""
+    out = []
+    for i in range(max(len(tc), len(tp))):
+        x = tc[i] if i < len(tc) else None
+        y = tp[i] if i < len(tp) else None
+        if x != y:
+            out.append((i, diff_key(case, x, y, i)))
+    return out
+
+
 def _diverges(impl, case, key=None):
-    """(index of first differing op, key) or None"""
+    """(index, key) of the first differing op (with that key, if given) or None"""
     r = _run_both(impl, [case])
     if r["c"] is None or r["py"] is None:
-        return (0, "crash") if key in (None, "crash") else None
-    tc, tp = r["c"][0]["tokens"], r["py"][0]["tokens"]
-    d = first_diff(tc, tp)
-    if d is None:
-        return None
-    k = diff_key(case, tc[d] if d < len(tc) else None, tp[d] if d < len(tp) else None, d)
-    if key is not None and k != key:
-        return None
-    return d, k
+        return (len(case["ops"]) - 1, "crash") if key in (None, "crash") else None
+    for d, k in all_diffs(case, r["c"][0]["tokens"], r["py"][0]["tokens"]):
+        if key is None or k == key:
+            return d, k
+    return None
 
 
-def minimise(impl, case, key, budget=70):
+def _diverging_batch(impl, case, cands, key):
+    """for each candidate op list: index of the first op diverging with ``key`` (None: no such op);
+    all candidates run in one driver process per mode"""
+    cases = [dict(case, ops=ops) for ops in cands]
+    r = _run_both(impl, cases)
+    if r["c"] is None or r["py"] is None:
+        # a crash of the whole batch: fall back to one by one
+        return [(_diverges(impl, c, key) or (None,))[0] for c in cases]
+    out = []
+    for c, oc, op in zip(cases, r["c"], r["py"]):
+        hit = None
+        for d, k in all_diffs(c, oc["tokens"], op["tokens"]):
+            if k == key:
+                hit = d
+                break
+        out.append(hit)
+    return out
+
+
+def minimise(impl, case, key, rounds=40):
     """delta debugging on the op list (the world stays; ops are independent commands), keeping the
-    same divergence signature"""
+    same divergence signature; every round evaluates all its candidates in one batch"""
     d0 = _diverges(impl, case, key)
     if d0 is None:
         return case
     ops = case["ops"][: d0[0] + 1]
-    best = dict(case, ops=ops)
     n = 2
-    runs = 0
-    while len(ops) >= 2 and runs < budget:
-        chunk = max(1, len(ops) // n)
-        reduced = False
-        for start in range(0, len(ops), chunk):
-            cand = ops[:start] + ops[start + chunk:]
-            if not cand:
-                continue
-            runs += 1
-            if _diverges(impl, dict(case, ops=cand), key) is not None:
-                ops = cand
-                best = dict(case, ops=ops)
+    for _ in range(rounds):
+        if len(ops) < 2:
+            break
+        chunk = max(1, -(-len(ops) // n))
+        starts = list(range(0, len(ops), chunk))
+        cands = [ops[:st] + ops[st + chunk:] for st in starts]
+        cands = [c for c in cands if c]
+        hits = _diverging_batch(impl, case, cands, key)
+        for cand, hit in zip(cands, hits):
+            if hit is not None:
+                ops = cand[: hit + 1]
                 n = max(n - 1, 2)
-                reduced = True
                 break
-            if runs >= budget:
-                break
-        if not reduced:
+        else:
             if chunk == 1:
                 break
             n = min(len(ops), n * 2)
-    # cut after the diverging op again
-    d1 = _diverges(impl, best, key)
-    if d1 is not None:
-        best = dict(best, ops=best["ops"][: d1[0] + 1])
-    return best
+    return dict(case, ops=ops)
 
 
 def extra(run, impl, known):
@@ -617,10 +759,16 @@ def extra(run, impl, known):
                 exc_ops += 1
         for r in oc["rows"]:
             rows[r["k"]] = rows.get(r["k"], 0) + 1
-        d = first_diff(oc["tokens"], op["tokens"])
-        if d is not None:
-            tc, tp = oc["tokens"], op["tokens"]
-            diffs.append((i, d, diff_key(case, tc[d] if d < len(tc) else None, tp[d] if d < len(tp) else None, d)))
+        # every differing op is looked at: a known divergence that leaves the state alone (G8 is a
+        # comparison) must not hide an unknown one later in the same program
+        seen_here = set()
+        for d, key in all_diffs(case, oc["tokens"], op["tokens"]):
+            if key in seen_here:
+                continue
+            seen_here.add(key)
+            diffs.append((i, d, key))
+            if key not in known:
+                break           # after an unknown divergence the states may differ legitimately
     cov["programs"] = len(pairs)
     cov["ops"] = ops
     cov["op_kinds"] = dict(sorted(kinds.items()))
@@ -628,7 +776,8 @@ def extra(run, impl, known):
     cov["ops_raising"] = exc_ops
     cov["programs_with_cached_none_and_default"] = cached
     cov["twin_kernel_rows"] = rows
-    cov["programs_diverging"] = len(diffs)
+    cov["programs_diverging"] = len(set(i for i, _d, _k in diffs))
+    cov["matrix_programs"] = sum(1 for (case, _o), _p in pairs if case.get("matrix"))
     seen = {}
     for i, d, key in diffs:
         seen.setdefault(key, []).append(i)
@@ -642,7 +791,7 @@ def extra(run, impl, known):
             continue
         i = idxs[0]
         case = pairs[i][0][0]
-        small = minimise(impl, case, key) if done < 4 else case
+        small = minimise(impl, case, key) if done < 6 else case
         done += 1
         r = _run_both(impl, [small])
         rp = {"property": ID, "kind": "the C implementation and the Python reference diverge on this API program",
